@@ -111,9 +111,8 @@ func (a *Path) equalSegment(b *Path, compareKey bool) bool {
 		if b.Meta != nil {
 			return false
 		}
-		if a.Meta.Ident() != b.Meta.Ident() {
-			return false
-		}
+	} else if b.Meta == nil || a.Meta.Ident() != b.Meta.Ident() {
+		return false
 	}
 	if compareKey {
 		if len(a.Key) != len(b.Key) {
